@@ -35,10 +35,10 @@ F_STARTTLS_REQ = "<starttls xmlns='urn:ietf:params:xml:ns:xmpp-tls'><required/><
 F_LEGACY = "<auth xmlns='http://jabber.org/features/iq-auth'/>"
 
 
-def f_sasl2(mechs=("PLAIN",), bind2=True, sm=False, fast=None):
+def f_sasl2(mechs=("PLAIN",), bind2=True, sm=False, fast=None, bind_features=()):
     inline = ""
     if bind2:
-        inline += "<bind xmlns='urn:xmpp:bind:0'><inline>%s</inline></bind>" % ("<feature var='urn:xmpp:sm:3'/>" if sm else "")
+        inline += "<bind xmlns='urn:xmpp:bind:0'><inline>%s%s</inline></bind>" % ("<feature var='urn:xmpp:sm:3'/>" if sm else "", "".join("<feature var='%s'/>" % f for f in bind_features))
     if sm:
         inline += "<sm xmlns='%s'/>" % NS_SM
     if fast:
